@@ -95,6 +95,12 @@ class Engine(object):
                 v = dict(v)
                 v["file"] = fn
                 self.contracts[k] = v
+                for var in v.get("variants") or []:
+                    w = dict(v)
+                    w.pop("variants")
+                    w.update(var)
+                    w["variant_of"] = k
+                    self.contracts[k + "#" + var["name"]] = w
             self.classes.update(getattr(mod, "CLASSES", {}))
             self.inline |= set(getattr(mod, "INLINE", ()))
             self.lemmas.update(getattr(mod, "LEMMAS", {}))
@@ -159,6 +165,7 @@ class Engine(object):
 
     def funcref_by_name(self, fq):
         """'pkg.mod.Class.method' or 'pkg.mod.func' or '...outer.<locals>.inner' -> FuncRef."""
+        fq = fq.split("#")[0]
         parts = fq.split(".")
         for i in range(len(parts) - 1, 0, -1):
             modname = ".".join(parts[:i])
@@ -235,6 +242,35 @@ class Engine(object):
                 return True if tb else mk_bool(z3.Not(ta))
             return mk_bool(z3.Implies(ta, tb))
         self.prims["implies"] = GhostPrim("implies", implies)
+
+        def is_pow2(ex, v):
+            """v is one of 1, 2, 4, 8, ... (ints; reals must be integer-valued)"""
+            if isinstance(v, bool):
+                return v is True
+            if isinstance(v, int):
+                return v >= 1 and (v & (v - 1)) == 0
+            if isinstance(v, float):
+                return v == v and v not in (float("inf"), float("-inf")) and v >= 1 and v == int(v) and \
+                    (int(v) & (int(v) - 1)) == 0
+            if isinstance(v, SReal):
+                return mk_bool(z3.And(z3.IsInt(v.e), ex.ctx.reg.pow2(z3.ToInt(v.e))))
+            return mk_bool(ex.ctx.reg.pow2(zint(v)))
+        self.prims["is_pow2"] = GhostPrim("is_pow2", is_pow2)
+
+        def is_integral(ex, v):
+            if isinstance(v, (int, SInt, SBool)):
+                return True
+            if isinstance(v, float):
+                return v == v and v not in (float("inf"), float("-inf")) and v == int(v)
+            if isinstance(v, SReal):
+                return mk_bool(z3.IsInt(v.e))
+            return False
+        self.prims["is_integral"] = GhostPrim("is_integral", is_integral)
+
+        def feq(ex, a, b):
+            r = ex.equals(a, b, None)
+            return r if isinstance(r, bool) else mk_bool(r)
+        self.prims["feq"] = GhostPrim("feq", feq)
 
         def isstr(ex, v):
             return is_strlike(v)
@@ -500,12 +536,27 @@ class Engine(object):
             return [(default, x)]
         return list(x)
 
+    def select_variant(self, fq, contract, env):
+        """pick the typing variant of a contract that fits the argument kinds"""
+        if not contract.get("variants"):
+            return fq, contract
+        def fits(c):
+            return all(p not in env or self.kind_ok(env[p], t) for p, t in (c.get("params") or {}).items())
+        if fits(contract):
+            return fq, contract
+        for var in contract["variants"]:
+            k = fq + "#" + var["name"]
+            if fits(self.contracts[k]):
+                return k, self.contracts[k]
+        return fq, contract
+
     def apply_contract(self, ex, fref, contract, env, line):
         ctx = ex.ctx
-        fq = fref.fq
+        fq, contract = self.select_variant(fref.fq, contract, env)
         ctx.used_contracts.add(fq)
         env = dict(env)
         self.coerce_params(ex, contract, env, fq, line)
+        fq = fq.split("#")[0]
         for (nm, pre) in self.norm_named(contract.get("requires"), "pre"):
             g = ex.spec_bool(pre, env, goal=True)
             if not z3.is_true(z3.simplify(g)):
@@ -676,7 +727,7 @@ class Engine(object):
                 undecided.append(("paths", "more than %d paths" % self.max_paths))
                 break
             ctx = Ctx(self, decisions)
-            ex = Exec(self, ctx)
+            ex = Exec(self, ctx, concrete=bool(contract.get("inline_all")))
             ex.top_fq = fq
             outcome = None
             try:
